@@ -41,6 +41,7 @@ class Check:
         self.exhaustive = False
         self.extra = {}
         self.floor_failures = []
+        self._index = {}
         self.known = [k for k in load_known().get("known", []) if k.get("property") == pid]
 
     # rule registry: name -> description; evidence reports the rule applied
@@ -51,8 +52,17 @@ class Check:
         """record one obligation.  key: line-number-free identity used to match known findings"""
         if rule not in self.rules:
             raise AnalysisBroken("internal: obligation for unregistered rule %s" % rule)
-        self.obs.append(dict(rule=rule, instance=instance, ok=bool(ok), where=where, detail=detail,
-                             nontrivial=nontrivial, fn=fn, key=key or instance, path=path))
+        k = (rule, key or instance)
+        prev = self._index.get(k)
+        if prev is not None:
+            # same obligation reached again (e.g. the same instruction on another path): keep the worst verdict
+            if prev["ok"] and not ok:
+                prev.update(ok=False, where=where, detail=detail, path=path, instance=instance)
+            return ok
+        rec = dict(rule=rule, instance=instance, ok=bool(ok), where=where, detail=detail,
+                   nontrivial=nontrivial, fn=fn, key=key or instance, path=path)
+        self._index[k] = rec
+        self.obs.append(rec)
         return ok
 
     def floor(self, rule, what, count, minimum):
